@@ -4,7 +4,7 @@ scratch_setup() {
   local S=$1
   mkdir -p $S/out
   if [ ! -d $S/repo ]; then git -C /repo worktree add --detach $S/repo HEAD >/dev/null 2>&1 || return 2; fi
-  git -C $S/repo checkout -q --detach $(git -C /repo rev-parse HEAD) && git -C $S/repo checkout -- . && git -C $S/repo clean -fdq -- src tests || return 2
+  git -C $S/repo checkout -- . && git -C $S/repo clean -fdq -- src tests && git -C $S/repo checkout -q --detach $(git -C /repo rev-parse HEAD) || return 2
   rm -rf $S/harness/src; mkdir -p $S/harness/.cargo
   cp -r /verif/harness/src $S/harness/src; cp /verif/harness/Cargo.lock $S/harness/ 2>/dev/null
   sed "s#path = \"/repo\"#path = \"$S/repo\"#" /verif/harness/Cargo.toml > $S/harness/Cargo.toml
